@@ -6,4 +6,7 @@ def run(prop, tier):
     from . import board
     if prop in board.BOARD_PROPS:
         return board.check(prop, tier)
+    if prop in ("C10", "C11"):
+        from . import game
+        return game.check(prop, tier)
     raise C.ToolError("no check registered for %s" % prop)
